@@ -33,7 +33,7 @@ func init() {
 			"an epoch (for name reuse and 'only the current primary can sign') starts at a wipeout of any kind or at a successful bootstrap; a re-bootstrap needs --overwrite, which is the operator's permission to replace existing keys",
 			"'only the current primary signing key can sign' is evaluated over key versions that have been recorded as primary in the epoch; leftovers of legitimately failed commands are not counted",
 			"profile checks apply to the certificate of every key at the moment a command makes it primary, and to the current primary after every later command",
-			"'no existing certificate object changes without overwrite' is evaluated for the storage-backed authorities (gcsca over SimDisk, localca); memca has no stored objects",
+			"memca's certificate map entries count as certificate objects; memca has no overwrite gate, so a bootstrap after a key wipeout replaces them (known finding, keyed memca-after-key-wipeout)",
 		},
 		Components: []core.Component{
 			{Name: "cmd bootstrap/rotate/wipeout (cobra), rotate.*", Kind: "real"},
@@ -53,6 +53,9 @@ type c12Model struct {
 	prevSerial  *big.Int
 	stamps      map[int64]bool // --timestamp of every command so far
 	preCerts    map[string][]byte
+	staleName   string
+	staleDER    []byte
+	keysWiped   bool // a `wipeout keys|all` succeeded since the last successful bootstrap
 }
 
 func subjectSerial(c *x509.Certificate) *big.Int {
@@ -79,7 +82,15 @@ func runC12(r *core.Run) {
 	for step := 0; step < n; step++ {
 		// clock: mostly forward, sometimes backward, never before the root's NotBefore
 		delta := time.Duration(r.Intn(600, "advance-days")) * 24 * time.Hour
-		if r.Chance(15, "clock-backward?") && !rootStart.IsZero() {
+		if r.Chance(12, "clock-horizon?") && !rootStart.IsZero() {
+			// deliberate jump towards the end of the root's validity (still inside it)
+			rootEnd := rootStart.Add(time.Duration(styp.RootValidDays) * 24 * time.Hour)
+			back := time.Duration(1+r.Intn(6*366, "days-before-root-expiry")) * 24 * time.Hour
+			if t := rootEnd.Add(-back); t.After(rootStart) {
+				a.Now = t
+				r.Probe("clock-near-root-expiry")
+			}
+		} else if r.Chance(15, "clock-backward?") && !rootStart.IsZero() {
 			back := a.Now.Add(-delta / 4)
 			if back.After(rootStart) {
 				a.Now = back
@@ -164,8 +175,17 @@ func c12Check(r *core.Run, a *Authority, m *c12Model, cfg Config, made string, o
 	// no-clobber without --overwrite
 	// memca is an in-memory double without stored objects or an overwrite gate; "certificate
 	// object" is read as an object of a storage-backed authority.
-	if !f.Overwrite && cfg.CA != "memca" {
+	if !f.Overwrite {
 		after := a.CertObjects()
+		clobberKey := made
+		if cfg.CA == "memca" {
+			// memca has no overwrite gate of its own: the only guard is the key manager's
+			// "key exists" check, which a key wipeout disarms (known finding).
+			clobberKey = "memca/" + made
+			if m.keysWiped {
+				clobberKey = "memca-after-key-wipeout/" + made
+			}
+		}
 		for _, name := range core.SortedKeys(before) {
 			was := before[name]
 			now, still := after[name]
@@ -173,7 +193,13 @@ func c12Check(r *core.Run, a *Authority, m *c12Model, cfg Config, made string, o
 				continue
 			}
 			if still && !bytes.Equal(was, now) {
-				r.Fail("object-clobbered", made, "%s: stored certificate object %q changed content although --overwrite was not given", where, name)
+				key := clobberKey
+				if _, thisEpoch := m.everPrimary[name]; cfg.CA == "memca" && !m.keysWiped && !thisEpoch && name != m.primary && name != "root" {
+					// a leftover entry of a previous epoch (before the last bootstrap) replaced by a
+					// rotation that re-issues the key version name
+					key = "memca-stale-entry-replaced/" + made
+				}
+				r.Fail("object-clobbered", key, "%s: stored certificate object %q changed content although --overwrite was not given", where, name)
 			}
 		}
 	}
@@ -211,6 +237,9 @@ func c12Check(r *core.Run, a *Authority, m *c12Model, cfg Config, made string, o
 			}
 		}
 		m.everPrimary, m.primary, m.prevSerial = map[string][]byte{}, "", nil
+		if what != "ca" {
+			m.keysWiped = true
+		}
 		return
 	}
 	primary, perr := v.CA.PrimarySigningKeyVersion(v.Ctx)
@@ -245,10 +274,17 @@ func c12Check(r *core.Run, a *Authority, m *c12Model, cfg Config, made string, o
 	if ok && (made == "boot" || made == "rot") && f.KeepGoing && !f.Overwrite && primary != m.primary && bytes.Equal(m.preCerts[primary], der) {
 		shape = "/keep-going-kept-stale-certificate"
 		r.Probe("keep-going-kept-stale-certificate")
+		m.staleName, m.staleDER = primary, der
+	} else if primary == m.staleName && bytes.Equal(der, m.staleDER) {
+		// the state left behind by that command persists until the primary changes
+		shape = "/keep-going-kept-stale-certificate"
+	} else {
+		m.staleName, m.staleDER = "", nil
 	}
 	if ok && made == "boot" {
 		// a successful bootstrap starts a new epoch
 		m.everPrimary, m.prevSerial = map[string][]byte{}, nil
+		m.keysWiped = false
 		*rootStart = root.NotBefore
 	}
 	// root profile
